@@ -109,7 +109,7 @@ struct wr<T, PK, OPS, KINDS, PD, RD, BD, axl<Ax...>, axl<Bx...>> {
       } break;
     }
   }
-  static void write(void *obj, WArgs<T> &a) {
+  static void write(void *obj, WArgs<T> &a) { vf::ArmedThunk vf_armed_;
     if constexpr (PK == 0) go(*(P *)obj, a, std::make_index_sequence<sizeof...(Ax)>{}, std::make_index_sequence<sizeof...(Bx)>{});
     else { map_t<T, PD> A((T *)obj); go(A, a, std::make_index_sequence<sizeof...(Ax)>{}, std::make_index_sequence<sizeof...(Bx)>{}); }
   }
